@@ -46,8 +46,15 @@ package auth
 //@   invariant forall k int :: {h.db[k]} idx <= k && k < len(h.db) ==> strcmp(h.db[k].UsernameHash, usernameHash) >= 0
 
 // FileHandler: whatever the file contains, loading it cannot panic, and the table it returns is sorted
-// (the precondition of Authenticate). Which rows end up in the table is not specified here.
+// (the precondition of Authenticate).
+// C16: which rows end up in the table: one per line of two or three fields, with the user's fingerprint, the password hash as
+// written, and the mount point of the line -- the default one when the line gives none (no third field, or an empty one).
+// The table handed to Authenticate is a permutation of these rows (sort.SliceStable, trusted model).
+//@ pred row_from(r fileRecord, rec []string) := r.UsernameHash == fp(rec[0]) && r.PasswordHash == rec[1]
+//@        && ((len(rec) == 2 && r.MountPoint == "_default") || (len(rec) == 3 && r.MountPoint == (if rec[2] == "" then "_default" else rec[2])))
 //@ func FileHandler(path string) (a AuthenticationHandler, err error)
 //@   ensures err == nil ==> typeis(a, *fileHandler) && unbox(a, *fileHandler) != nil && db_sorted(unbox(a, *fileHandler))
 //@ loop FileHandler#1
 //@   invariant -1 <= rangeindex && rangeindex < len(records)
+//@   invariant [C16] forall k int :: {out[k]} 0 <= k && k < len(out) ==> (exists i int :: {records[i]} 0 <= i && i <= rangeindex && row_from(out[k], records[i]))
+//@   invariant [C16] forall i int :: {records[i]} 0 <= i && i <= rangeindex && (len(records[i]) == 2 || len(records[i]) == 3) ==> (exists k int :: {out[k]} 0 <= k && k < len(out) && row_from(out[k], records[i]))
